@@ -7,6 +7,7 @@ typedef struct error_context_s {
     control_stack_t *save_csp;
     object_t *save_command_giver; 
     svalue_t *save_sp;
+    int save_num_varargs;       /* arguments expanded by '...' and not yet taken by a call */
     struct error_context_s *save_context;
 } error_context_t;
 
